@@ -464,6 +464,26 @@ def x7_shims(text, log):
         return "vx_join_semi(%s, %s)" % (m.group(1), m.group(2))
     text = re.sub(r"\bformat!\(\"\{\};\{\}\", ((?:[a-z_][a-z0-9_]*\.into\(\))|(?:vx_into_string\([a-z_][a-z0-9_]*\))), ([a-z_][a-z0-9_]*)\)", joinsemi, text)
 
+    def uubr(m):
+        log.add("X7:vx_uuid_braced")
+        return "vx_uuid_braced(&%s)" % m.group(1)
+    text = re.sub(r"\bformat!\(\"\{\{\{\}\}\}\", ([a-z_][a-z0-9_]*)\.hyphenated\(\)\)", uubr, text)
+
+    def mkupper(m):
+        log.add("X7:vx_make_ascii_uppercase")
+        return "vx_make_ascii_uppercase(&mut %s)" % m.group(1)
+    text = re.sub(r"\b([a-z_][a-z0-9_]*)\.make_ascii_uppercase\(\)", mkupper, text)
+
+    def trims(m):
+        log.add("X7:vx_trim_start_char+vx_trim_end_char")
+        return "vx_trim_end_char(vx_trim_start_char(%s, %s), %s)" % (m.group(1), m.group(2), m.group(3))
+    text = re.sub(r"\b([a-z_][a-z0-9_]*)\s*\.trim_start_matches\(('.')\)\s*\.trim_end_matches\(('.')\)", trims, text)
+
+    def uuparse(m):
+        log.add("X7:vx_uuid_parse")
+        return "vx_uuid_parse(%s)" % m.group(1)
+    text = re.sub(r"\bUuid::parse_str\(([a-z_][a-z0-9_]*)\)\.ok\(\)", uuparse, text)
+
     def btit(m):
         log.add("X7:vx_btree_into_iter")
         return "vx_btree_into_iter(%s)" % m.group(1)
